@@ -301,7 +301,7 @@ def _record_tiny(name, tier, r):
     def pub(via, a3, fn):
         try:
             vk = fn()
-            pt = vk.pubkey.point
+            pt = getattr(vk, "pubkey", vk).point
             out, s = (0, int(pt.x()), int(pt.y())), "ok"
         except Exception as e:
             out, s = (1, 0, 0), eclib.mro(e)
@@ -310,6 +310,7 @@ def _record_tiny(name, tier, r):
     other = "T11" if name != "T11" else "T17"
     c_other = eclib.tiny_curve(other)[0]
     other_pts = set(eclib.tiny_points(other))
+    _pub_entry_points(name, pub)
     for x in range(p + 2):
         for y in range(p + 2):
             pub("point", (x, y, 0), lambda: keys.VerifyingKey.from_public_point(PointJacobi(c, x, y, 1), cv))
@@ -339,6 +340,49 @@ def _record_tiny(name, tier, r):
         for dB in range(1, n):
             do("ecdh", "", k=dA, m=dB)
     return rec.evs
+
+
+def _pub_entry_points(name, pub, others=None):
+    """every other public loading entry point / argument form of the tiny curve `name` (same rejection clause for all):
+    DER and PEM (explicit curve parameters), ECDH loaders, the low-level Public_key constructor, and from_public_point /
+    Public_key with AFFINE Point objects: points of this curve, and points that live on ANOTHER curve object"""
+    from register_crypto_plugin.ecdsa import keys, der, ecdsa, ecdh as ecdh_mod
+    from register_crypto_plugin.ecdsa.ellipticcurve import PointJacobi, Point
+    p = TINY[name][0]
+    c, G, cv = eclib.tiny_curve(name)
+    try:
+        params = cv.to_der("explicit")
+    except Exception as e:
+        params = None
+        pub("der", (0, 0, 4), lambda: (_ for _ in ()).throw(e))
+
+    def spki(x, y):
+        return der.encode_sequence(der.encode_sequence(keys.encoded_oid_ecPublicKey, params), der.encode_bitstring(bytes([4, x, y]), 0))
+
+    def ecdh_with(meth, arg):
+        e = ecdh_mod.ECDH(cv)
+        getattr(e, meth)(arg)
+        return e.public_key
+    for x in range(p + 2):
+        for y in range(p + 2):
+            if params is not None:
+                pub("der", (x, y, 4), lambda: keys.VerifyingKey.from_der(spki(x, y)))
+                pub("pem", (x, y, 4), lambda: keys.VerifyingKey.from_pem(der.topem(spki(x, y), "PUBLIC KEY")))
+                pub("ecdh-der", (x, y, 4), lambda: ecdh_with("load_received_public_key_der", spki(x, y)))
+                pub("ecdh-pem", (x, y, 4), lambda: ecdh_with("load_received_public_key_pem", der.topem(spki(x, y), "PUBLIC KEY")))
+            pub("Public_key", (x, y, 0), lambda: ecdsa.Public_key(G, PointJacobi(c, x, y, 1)))
+            pub("ecdh-object", (x, y, 0), lambda: ecdh_with("load_received_public_key", keys.VerifyingKey.from_public_point(PointJacobi(c, x, y, 1), cv)))
+    for (x, y) in eclib.tiny_points(name):
+        for xx, yy in ((x, y), (x + p, y), (x, y + p)):
+            pub("point-aff", (xx, yy, 0), lambda: keys.VerifyingKey.from_public_point(Point(c, xx, yy), cv))
+            pub("Public_key-aff", (xx, yy, 0), lambda: ecdsa.Public_key(G, Point(c, xx, yy)))
+    for o in (others or [t for t in TINY if t != name]):
+        co = eclib.tiny_curve(o)[0]
+        for (x, y) in eclib.tiny_points(o):
+            # an affine Point object that satisfies the equation of ITS curve object, offered as a key for this curve
+            pub("point-aff-other", (x, y, 0), lambda: keys.VerifyingKey.from_public_point(Point(co, x, y), cv))
+            pub("Public_key-aff-other", (x, y, 0), lambda: ecdsa.Public_key(G, Point(co, x, y)))
+            pub("ecdh-object-aff-other", (x, y, 0), lambda: ecdh_with("load_received_public_key", keys.VerifyingKey.from_public_point(Point(co, x, y), cv)))
 
 
 def _ecdh_load(ecdh_mod, cv, data):
@@ -462,6 +506,11 @@ def _oracle_curve(args):
         rel_ev("k*G NAF k=%d" % k, lambda: PointJacobi(c, Gx, Gy, 1, n) * k, k)
         rel_ev("k*G NAF scaled representative k=%d" % k, lambda: PointJacobi(c, Gs[0], Gs[1], Gs[2], n) * k, k)
         rel_ev("k*G NAF no order k=%d" % k, lambda: PointJacobi(c, Gx, Gy, 1) * k, k)
+        if thorough or k < 8 or k % 2 == 1 or k in (n - 1, n + 1, 2 * n):
+            # generator=True (table path) on projectively scaled representatives of G (Z != 1), fresh object per call
+            rel_ev("k*G table path, scaled representative Z=%d, k=%d (%s)" % (Gs[2], k, "odd" if k % 2 else "even"),
+                   lambda: PointJacobi(c, Gs[0], Gs[1], Gs[2], n, generator=True) * k, k)
+            rel_ev("k*G table path, scaled representative Z=2, k=%d" % k, lambda: PointJacobi(c, 4 * Gx % p, 8 * Gy % p, 2, n, generator=True) * k, k)
         if thorough or k.bit_length() <= nb // 2 or k in (n - 1, n, n + 1, 2 * n + 1):
             rel_ev("k*G affine Point k=%d" % k, lambda: Point(c, Gx, Gy, n) * k, k)
     # error path: the first multiplication of a FRESH generator object is interrupted inside _maybe_precompute (sampled
@@ -554,8 +603,12 @@ def _oracle_curve(args):
     nts = lambda v: v.to_bytes(L, "big")
     cand = []          # (what, point bytes as handed to the library, X9.62 form for OpenSSL, key)
 
-    def add(what, enc, key=None):
+    others = {}
+
+    def add(what, enc, key=None, other=None):
         x962 = (b"\x04" + enc) if len(enc) == 2 * L else enc
+        if other is not None:
+            others[what] = other
         cand.append((what, enc, x962, key))
     unc, comp, hyb = b"\x04" + nts(qx) + nts(qy), bytes([2 + (qy & 1)]) + nts(qx), bytes([6 + (qy & 1)]) + nts(qx) + nts(qy)
     add("valid raw", nts(qx) + nts(qy)); add("valid uncompressed", unc); add("valid compressed", comp); add("valid hybrid", hyb)
@@ -585,7 +638,7 @@ def _oracle_curve(args):
     add("compressed x without square root", b"\x02" + nts(xx)); add("compressed x without square root (odd)", b"\x03" + nts(xx))
     for o in eclib.shipped():
         if o is not cv and (int(o.curve.p()).bit_length() + 7) // 8 == L:
-            add("point of %s" % o.name, b"\x04" + eclib.ossl_pub_raw(o, r.randrange(1, int(o.order)))[0])
+            add("point of %s" % o.name, b"\x04" + eclib.ossl_pub_raw(o, r.randrange(1, int(o.order)))[0], other=o)
     if thorough and L <= 32:
         bits_u, bits_c = range(8 * len(unc)), range(8 * len(comp))
     else:
@@ -630,24 +683,49 @@ def _oracle_curve(args):
 
     verd = eclib.pmap(lambda cnd: eclib.ossl_pubcheck(cv, cnd[2]), cand, workers=6)
     ncalls += len(cand)
+    from register_crypto_plugin.ecdsa import ecdsa as ecdsa_mod, der as der_mod
+
+    def ecdh_obj(vk):
+        e = ecdh_mod.ECDH(cv)
+        e.load_received_public_key(vk)
+        return e.public_key
     for (what, enc, x962, key), ov in zip(cand, verd):
-        for ctx, fn in (("pub-string", lambda: keys.VerifyingKey.from_string(enc, cv)),
-                        ("ecdh-bytes", lambda: _ecdh_load(ecdh_mod, cv, enc)),
-                        ("pub-der", lambda: keys.VerifyingKey.from_der(eclib.spki(cv, x962)))):
-            if ctx == "pub-der" and len(enc) == 2 * L:
-                continue                         # raw encoding does not exist inside DER
+        # every public loading entry point and argument form, one rejection clause (OpenSSL's verdict on the same point)
+        forms = [("pub-string", "from_string", lambda: keys.VerifyingKey.from_string(enc, cv)),
+                 ("ecdh-bytes", "ECDH.load_received_public_key_bytes", lambda: _ecdh_load(ecdh_mod, cv, enc))]
+        if len(enc) != 2 * L:                    # (the raw encoding does not exist inside DER)
+            spki = eclib.spki(cv, x962)
+            forms += [("pub-der", "from_der", lambda: keys.VerifyingKey.from_der(spki)),
+                      ("pub-pem", "from_pem", lambda: keys.VerifyingKey.from_pem(der_mod.topem(spki, "PUBLIC KEY"))),
+                      ("ecdh-der", "ECDH.load_received_public_key_der", lambda: _ecdh_load_der(ecdh_mod, cv, spki)),
+                      ("ecdh-pem", "ECDH.load_received_public_key_pem", lambda: _ecdh_load_pem(ecdh_mod, cv, der_mod.topem(spki, "PUBLIC KEY")))]
+        if len(x962) == 2 * L + 1 and x962[:1] == b"\x04":
+            px, py = int.from_bytes(x962[1:L + 1], "big"), int.from_bytes(x962[L + 1:], "big")
+            forms += [("pub-point", "from_public_point(PointJacobi)", lambda: keys.VerifyingKey.from_public_point(PointJacobi(c, px, py, 1), cv)),
+                      ("pub-point", "from_public_point(PointJacobi Z=2)", lambda: keys.VerifyingKey.from_public_point(PointJacobi(c, 4 * px % p, 8 * py % p, 2), cv)) if max(px, py) < p else None,
+                      ("public-key-ctor", "Public_key(G, PointJacobi)", lambda: ecdsa_mod.Public_key(cv.generator, PointJacobi(c, px, py, 1))),
+                      ("pub-point", "ECDH.load_received_public_key(from_public_point(...))", lambda: ecdh_obj(keys.VerifyingKey.from_public_point(PointJacobi(c, px, py, 1), cv)))]
+            home = others.get(what) or (cv if what.startswith(("valid", "negated")) else None)
+            if home is not None:
+                # the same coordinates as an AFFINE Point object of the curve they live on
+                forms += [("pub-point", "from_public_point(Point of %s)" % home.name, lambda: keys.VerifyingKey.from_public_point(Point(home.curve, px, py), cv)),
+                          ("public-key-ctor", "Public_key(G, Point of %s)" % home.name, lambda: ecdsa_mod.Public_key(cv.generator, Point(home.curve, px, py))),
+                          ("pub-point", "ECDH.load_received_public_key(from_public_point(Point of %s))" % home.name,
+                           lambda: ecdh_obj(keys.VerifyingKey.from_public_point(Point(home.curve, px, py), cv)))]
+        for ctx, how, fn in [f for f in forms if f]:
             k2 = key
             try:
                 vk = fn()
                 lv, cls = "accept", ""
                 if c.cofactor() != 1 and ov == "reject":
                     # name the input class: n*Q is the point of order 2 (x0, 0), which the library reads as infinity
-                    T = _aff_mul(cv, n, (int(vk.pubkey.point.x()), int(vk.pubkey.point.y())))
+                    pt_ = getattr(vk, "pubkey", vk).point
+                    T = _aff_mul(cv, n, (int(pt_.x()), int(pt_.y())))
                     if T is not None and T[1] == 0:
                         k2 = "order-check-reads-y0-as-infinity"
             except Exception as e:
                 lv, cls = "reject", type(e).__name__
-            rec.ev("verdict", "%s %s: %s  [%s]" % (cv.name, ctx, what, enc.hex()), lv, ov, cls=cls, ctx=ctx, key=k2)
+            rec.ev("verdict", "%s %s: %s  [%s]" % (cv.name, how, what, enc.hex()), lv, ov, cls=cls, ctx=ctx, key=k2)
     return cv.name, rec.evs, ncalls
 
 
@@ -742,6 +820,7 @@ def _tiny_history(args):
                 pub(nm, "ecdh", (x, y, 0), lambda: _ecdh_load(ecdh_mod, cv, bytes([x, y])))
             for pre in (2, 3):
                 pub(nm, "compressed", (x, 0, pre), lambda: keys.VerifyingKey.from_string(bytes([pre, x]), cv, valid_encodings=["compressed"]))
+        _pub_entry_points(nm, lambda via, a3, fn: pub(nm, via, a3, fn), others=[o for o in ("T11", "TH2") if o != nm])
     # ---- ECDH objects whose curve / keys change during their life
     names = ["T17", "T11", "T13"] if order == 0 else ["T13", "T11", "T17"]
     for i, nx in enumerate(names):
@@ -768,8 +847,8 @@ def _oracle_history(args):
     tier, wd, order = args
     from ..common import repo_on_path
     repo_on_path()
-    from register_crypto_plugin.ecdsa.ellipticcurve import PointJacobi, INFINITY
-    from register_crypto_plugin.ecdsa import keys, ecdh as ecdh_mod
+    from register_crypto_plugin.ecdsa.ellipticcurve import PointJacobi, Point, INFINITY
+    from register_crypto_plugin.ecdsa import keys, ecdh as ecdh_mod, ecdsa as ecdsa_mod, der as der_mod
     r = rng("c17/history/%d" % order)
     thorough = tier == "thorough"
     files = eclib.Files(os.path.join(wd, "hist%d" % order))
@@ -820,6 +899,11 @@ def _oracle_history(args):
             verdict(t2 + "from_der", "pub-der", B, unc, lambda: keys.VerifyingKey.from_der(eclib.spki(B, unc)))
             verdict(t2 + "from_public_point", "pub-point", B, unc,
                     lambda: keys.VerifyingKey.from_public_point(PointJacobi(B.curve, qx, qy, 1), B))
+            verdict(t2 + "from_public_point(affine Point of %s)" % A.name, "pub-point", B, unc,
+                    lambda: keys.VerifyingKey.from_public_point(Point(A.curve, qx, qy), B))
+            verdict(t2 + "Public_key(G, affine Point of %s)" % A.name, "public-key-ctor", B, unc,
+                    lambda: ecdsa_mod.Public_key(B.generator, Point(A.curve, qx, qy)))
+            verdict(t2 + "from_pem", "pub-pem", B, unc, lambda: keys.VerifyingKey.from_pem(der_mod.topem(eclib.spki(B, unc), "PUBLIC KEY")))
             verdict(t2 + "ECDH.load_received_public_key_bytes", "ecdh-bytes", B, unc, lambda: _ecdh_load(ecdh_mod, B, unc))
             verdict(t2 + "ECDH.load_received_public_key_der", "pub-der", B, unc, lambda: _ecdh_load_der(ecdh_mod, B, eclib.spki(B, unc)))
             verdict(t2 + "compressed", "pub-string", B, comp, lambda: keys.VerifyingKey.from_string(comp, B))
@@ -886,6 +970,12 @@ def _oracle_history(args):
     for e, X, dA, dB in derive:
         e["ref"] = list(ansd[(X.name, dA, dB)])
     return "history%d" % order, rec.evs, ncalls
+
+
+def _ecdh_load_pem(ecdh_mod, cv, data):
+    e = ecdh_mod.ECDH(cv)
+    e.load_received_public_key_pem(data)
+    return e.public_key
 
 
 def _ecdh_load_der(ecdh_mod, cv, data):
@@ -1069,7 +1159,7 @@ def _tiny_violation(rep, nm, e, x, ctx):
     from .. import tlaval
     clause, detail = x[2], x[3]
     key = None
-    if clause in ("order-check-reads-y0-as-infinity", "infinity-object-exception-class"):
+    if clause in ("order-check-reads-y0-as-infinity", "infinity-object-exception-class", "order2-affine-point-exception-class"):
         key = clause
     elif e["op"] in ("neg", "negadd") and e["via"].split(",")[0] == "INF" and e["s"].startswith("raise:AttributeError"):
         key = "neg-infinity-object-raises"
